@@ -114,16 +114,20 @@ Definition response_ok (T : table) (nf na : bool) (q : req) : bool :=
     end
   end.
 
+(* does the accepted table satisfy the property's side condition? *)
+Definition in_scope (c : case) : bool := one_var_name_per_position (table_of (cregs c)).
+
+(* The property's quantifier is "route tables that use one variable name per position":
+   tables outside it are compared with the model ([agrees]) but are not property failures. *)
 Definition prop_ok (c : case) : bool :=
   let T := table_of (cregs c) in
-  list_eqb reg_result_eqb (reg_results [] (cregs c)) (cregobs c)
-  && forallb (response_ok T (cnf c) (cna c)) (creqs c).
+  if in_scope c then
+    list_eqb reg_result_eqb (reg_results [] (cregs c)) (cregobs c)
+    && forallb (response_ok T (cnf c) (cna c)) (creqs c)
+  else true.
 
 Definition model_obs (c : case) :=
   let r0 := new_router (cnf c) (cna c) in
   let r := build r0 (cregs c) in
   (build_results r0 (cregs c),
    map (fun q => (clean_string (qp q), serve_allowed r (qm q) (qp q))) (creqs c)).
-
-(* does the accepted table satisfy the property's side condition? (for statistics) *)
-Definition in_scope (c : case) : bool := one_var_name_per_position (table_of (cregs c)).
